@@ -90,7 +90,13 @@ func c05Gen(c *core.Ctx) func(yield func(c05Case) bool) {
 		if !ok || !c.Thorough() {
 			return
 		}
-		fam(3, three, [][]int{{0, 1, 2}}, "n3-dev2", 2, []int{1})
+		quickLazy = true // two deviations: at most one lazy node (the full product does not fit the budget)
+		fam(2, three, [][]int{{0, 1}}, "n2-dev2", 2, []int{1})
+		if !ok {
+			return
+		}
+		fam(3, []int{scen.ENone, scen.EName}, [][]int{{0, 1, 2}}, "n3-dev2", 2, []int{1})
+		quickLazy = false
 		if !ok {
 			return
 		}
